@@ -78,15 +78,14 @@ Hypothesis Hreg : r_templates (c_reg cf) = c04_templates p.
 Lemma go_template_walk k t f1 st cenv text :
   go_callee_ok cf (c04_tout (c_ij cf) go_print_text p k) (k * c04_D p) ->
   (k * c04_D p + bdepth (ct_body t) < f1)%nat -> wok st -> agrees cenv st cenv -> envok cenv ->
-  template_mode (mode st) (ct_ae t) = ct_mode t ->
-  bout (c_ij cf) (ct_mode t) go_print_text cenv (c04_tout (c_ij cf) go_print_text p k) cenv (ct_body t) = Some text ->
+  bout (c_ij cf) (template_mode (mode st) (ct_ae t)) go_print_text cenv (c04_tout (c_ij cf) go_print_text p k) cenv (ct_body t) = Some text ->
   exists st' ws rv, walk cf (S f1) (t_node (c04_template t)) st = (Ok rv, st') /\ wrote st st' ws /\ concat_b ws = text /\ ctx st' = ctx st.
 Proof.
-  intros IH Hf Hg Ha Hc Hm E.
+  intros IH Hf Hg Ha Hc E.
   cbn [c04_template t_node]. rewrite walk_unfold. cbn [walk_node pos_of].
   unfold mbind at 1. cbn [modify].
   set (st3 := set_mode (set_cur st 0) (template_mode (mode (set_cur st 0)) (ct_ae t))).
-  assert (M3 : mode st3 = ct_mode t) by exact Hm.
+  assert (M3 : mode st3 = template_mode (mode st) (ct_ae t)) by reflexivity.
   assert (C3 : ctx st3 = ctx st) by reflexivity.
   assert (S3 : wsame st st3) by (repeat split).
   destruct (go_block cf cenv (c04_tout (c_ij cf) go_print_text p k) (k * c04_D p) IH (ct_body t) f1 st3 text cenv
@@ -112,27 +111,31 @@ Proof.
   assert (S2 : wsame st st2) by (repeat split).
   assert (A2 : agrees cenv st2 cenv).
   { split; [intro q; rewrite C2, sc_enter_lookup by exact Hn; apply Hl|rewrite C2; apply sc_enter_dinv; assumption]. }
-  destruct (go_template_walk k t f1 st2 cenv text IH ltac:(lia) (wsame_wok _ _ S2 Hg) A2 Hc eq_refl E) as (st4 & ws & rv & E4 & W4 & T4 & X4).
+  destruct (go_template_walk k t f1 st2 cenv text IH ltac:(lia) (wsame_wok _ _ S2 Hg) A2 Hc E) as (st4 & ws & rv & E4 & W4 & T4 & X4).
   rewrite E4.
   eexists _, ws, VUndef. split; [reflexivity|].
   split; [apply (wrote_r _ st4); [exact (wrote_l _ _ _ _ S2 W4)|repeat split]|].
   split; [exact T4|]. split; reflexivity.
 Qed.
 
+(* the subset semantics does not distinguish autoescape "unspecified" (0) from "on" (1): both escape (the two print
+   functions are convertible) *)
+Lemma bout_mode01 ij dv cl env b : bout ij 1 go_print_text dv cl env b = bout ij 0 go_print_text dv cl env b.
+Proof. reflexivity. Qed.
+
 (* (Go) the entry point: Renderer.Execute of a template of the program with data (a map of core values) and no write budget
    succeeds and the Write calls it makes concatenate to the text of the subset semantics.  Execute starts in autoescape
-   mode "on" when the namespace does not say (entry_mode) while a call inherits "unspecified": both escape, but the
-   generator's mode is the call's, so the statement is for templates whose mode is the same either way *)
+   mode "on" when the namespace does not say (entry_mode) while a call inherits "unspecified" -- the mode the generator and
+   c04_tout use --: both escape (bout_mode01), so the text is the same *)
 Theorem go_render_correct k name t data_id data first_id text fuel :
   c04_find p name = Some t ->
-  template_mode (entry_mode (ct_ns_ae t)) (ct_ae t) = ct_mode t ->
   forallb (fun kv => core_value (snd kv)) data = true ->
   c04_tout (c_ij cf) go_print_text p (S k) name (fun q => assoc_s q data) = Some text ->
   (S k * c04_D p <= fuel)%nat ->
   let r := render cf fuel name data_id data None None first_id in
   rr_outcome r = Ok tt /\ concat_b (rr_writes r) = text.
 Proof.
-  intros Ef Hm Hcore E Hf. cbn [c04_tout] in E. rewrite Ef in E.
+  intros Ef Hcore E Hf. cbn [c04_tout] in E. rewrite Ef in E.
   pose proof (c04_find_depth p name t Ef) as Hd. rewrite Nat.mul_succ_l in Hf. unfold c04_D in Hf at 2.
   destruct fuel as [|f1]; [lia|].
   cbn zeta. unfold render. rewrite Hreg, (c04_find_template p name t Ef).
@@ -145,7 +148,10 @@ Proof.
   { split; [intro q; change (ctx st0) with (sc_enter (new_scope data_id data)); rewrite sc_enter_lookup by discriminate; apply Hl|].
     change (ctx st0) with (sc_enter (new_scope data_id data)). apply sc_enter_dinv; [discriminate|exact Hl]. }
   assert (W0 : wok st0) by (unfold wok; cbn; auto).
-  destruct (go_template_walk k t f1 st0 cenv text (go_call_correct k) ltac:(lia) W0 A0 Hc Hm E) as (st4 & ws & rv & E4 & W4 & T4 & X4).
+  assert (E' : bout (c_ij cf) (template_mode (mode st0) (ct_ae t)) go_print_text cenv (c04_tout (c_ij cf) go_print_text p k) cenv (ct_body t) = Some text).
+  { change (mode st0) with (entry_mode (ct_ns_ae t)). unfold ct_mode, call_mode in E. unfold template_mode, entry_mode in *.
+    destruct (ct_ae t =? 0); [|exact E]. destruct (ct_ns_ae t =? 0) eqn:Z0; [|exact E]. apply N.eqb_eq in Z0. rewrite Z0 in E. rewrite bout_mode01. exact E. }
+  destruct (go_template_walk k t f1 st0 cenv text (go_call_correct k) ltac:(lia) W0 A0 Hc E') as (st4 & ws & rv & E4 & W4 & T4 & X4).
   rewrite E4. cbn [rr_outcome rr_writes].
   destruct (wrote_out st0 st4 ws eq_refl W4) as [_ Ho]. rewrite Ho. cbn [out st0 init_state]. rewrite app_nil_r, rev_involutive.
   split; [reflexivity|exact T4].
@@ -203,29 +209,29 @@ Variable o : jopts.
 Hypothesis HCN : cn_ok o.
 Hypothesis HNB : o_msgs o = None.
 
-Lemma gres_mod_auto a' st i b a s n : shape st i b a s n -> gres (jmod (set_auto a')) st [] i b a' s n.
-Proof. intro H. exists (set_auto a' st). split; [reflexivity|]. destruct st; cbn in *. split; [reflexivity|]. destruct H as (? & ? & ? & ? & ?). repeat split; assumption. Qed.
-Lemma gres_mod_buf b' st i b a s n : shape st i b a s n -> gres (jmod (set_buf b')) st [] i b' a s n.
-Proof. intro H. exists (set_buf b' st). split; [reflexivity|]. destruct st; cbn in *. split; [reflexivity|]. destruct H as (? & ? & ? & ? & ?). repeat split; assumption. Qed.
-Lemma gres_mod_infile f st i b a s n : shape st i b a s n -> gres (jmod (fun x => set_infile (f x) x)) st [] i b a s n.
-Proof. intro H. exists (set_infile (f st) st). split; [reflexivity|]. destruct st; cbn in *. split; [reflexivity|exact H]. Qed.
-Lemma gres_push st i b a s n : shape st i b a s n -> gres jsc_push st [] i b a ([] :: s) n.
+Lemma gres_mod_auto a' st i b a s n : shape st i b a s n -> gres o (jmod (set_auto a')) st [] i b a' s n.
+Proof. intro H. exists (set_auto a' st). split; [reflexivity|]. destruct st; cbn in *. split; [reflexivity|]. destruct H as (? & ? & ? & ? & ?). repeat split; try assumption; intros _; reflexivity. Qed.
+Lemma gres_mod_buf b' st i b a s n : shape st i b a s n -> gres o (jmod (set_buf b')) st [] i b' a s n.
+Proof. intro H. exists (set_buf b' st). split; [reflexivity|]. destruct st; cbn in *. split; [reflexivity|]. destruct H as (? & ? & ? & ? & ?). repeat split; try assumption; intros _; reflexivity. Qed.
+Lemma gres_mod_infile f st i b a s n : shape st i b a s n -> gres o (jmod (fun x => set_infile (f x) x)) st [] i b a s n.
+Proof. intro H. exists (set_infile (f st) st). split; [reflexivity|]. destruct st; cbn in *. split; [reflexivity|]. split; [exact H|reflexivity]. Qed.
+Lemma gres_push st i b a s n : shape st i b a s n -> gres o jsc_push st [] i b a ([] :: s) n.
 Proof.
   intros (I1 & B1 & A1 & S1 & N1). exists (set_scope ([] :: j_scope st) (j_n st) st). split; [reflexivity|].
-  split; [destruct st; reflexivity|]. unfold shape. cbn [j_indent j_buf j_auto j_scope j_n set_scope]. rewrite S1. repeat split; assumption.
+  split; [destruct st; reflexivity|]. split; [|destruct st; reflexivity]. unfold shape. cbn [j_indent j_buf j_auto j_scope j_n set_scope]. rewrite S1. repeat split; assumption.
 Qed.
 
 Tactic Notation "gbind" ident(x) ident(H) := eapply gres_bind; [ | intros x H ].
 
 Lemma gres_template_head ae st i b a s n : shape st i b a s n ->
-  gres (template_head ae) st (sp_ind i ++ [] ++ [CText t_nl]) i b (template_mode a ae) s n.
+  gres o (template_head ae) st (sp_ind i ++ [] ++ [CText t_nl]) i b (template_mode a ae) s n.
 Proof.
   intro H. unfold template_head, template_mode. destruct (ae =? 0).
   - eapply gres_eq; [eapply gres_bind; [eapply gres_ret; exact H|intros x Hx; eapply gres_sln; exact Hx]|reflexivity].
   - eapply gres_eq; [eapply gres_bind; [eapply gres_mod_auto; exact H|intros x Hx; eapply gres_sln; exact Hx]|reflexivity].
 Qed.
 Lemma gres_optline (c : bool) st i b a s n : shape st i b a s n ->
-  gres (if c then jsln [CText t_optdata_init] else jret tt) st (if c then sp_ind i ++ [CText t_optdata_init] ++ [CText t_nl] else []) i b a s n.
+  gres o (if c then jsln [CText t_optdata_init] else jret tt) st (if c then sp_ind i ++ [CText t_optdata_init] ++ [CText t_nl] else []) i b a s n.
 Proof. intro H. destruct c; [apply gres_sln; exact H|apply gres_ret; exact H]. Qed.
 
 (* the flag visitTemplate computes from the soydoc node before the template *)
@@ -236,12 +242,12 @@ Theorem gen_template t lv F st jb n' bf sc n :
   (S (bdepth (ct_body t)) < F)%nat -> bwf lv (ct_body t) = true -> lvok lv ([] :: sc) ->
   shape st 0 bf (ct_ns_ae t) sc n ->
   bgen (ct_mode t) t_output ([] :: [] :: sc) n (ct_body t) = (jb, n') ->
-  gres (jwalk o F (t_node (c04_template t))) st
+  gres o (jwalk o F (t_node (c04_template t))) st
        (c04_tprint (template_header_line o (ct_name t)) (c04_allopt (j_cur st)) jb) 0 t_output (ct_ns_ae t) sc n'.
 Proof.
   intros Hf Hwf Hlv Hs Eg. destruct F as [|F1]; [lia|]. cbn [c04_template t_node].
   eapply gres_walk; [reflexivity|exact Hs|]. intros st1 H1. cbn [jwalk_node]. unfold visit_template.
-  eapply gres_step; [reflexivity|reflexivity|]. cbn zeta.
+  eapply gres_step; [reflexivity|split; reflexivity|]. cbn zeta.
   replace (j_auto st1) with (ct_ns_ae t) by (symmetry; apply H1).
   fold (c04_allopt (j_cur st)).
   eapply gres_eq.
@@ -262,7 +268,7 @@ Proof.
     gbind x11 Hx11. eapply gres_dec; exact Hx10.
     gbind x12 Hx12. eapply gres_sln; exact Hx11.
     gbind x13 Hx13. eapply gres_mod_auto; exact Hx12.
-    eapply (gres_pop x13 _ _ _ [] sc); exact Hx13.
+    eapply (gres_pop o x13 _ _ _ [] sc); exact Hx13.
   - unfold c04_tprint, sp_ind. destruct (c04_allopt (j_cur st)); repeat rewrite <- app_assoc; cbn [app]; rewrite ?app_nil_r; reflexivity.
 Qed.
 
@@ -273,7 +279,7 @@ Definition c04_file_chunks (p : list ctmpl) (n : N) : list chunk :=
 Theorem gen_templates nsae F : forall p n st bf,
   (forall t, In t p -> ct_ns_ae t = nsae /\ (S (S (bdepth (ct_body t))) < F)%nat /\ bwf [] (ct_body t) = true) ->
   shape st 0 bf nsae [[]] n ->
-  exists bf' n', gres (jwalk_list (jwalk o F) (flat_map c04_doc_nodes p)) st (c04_file_chunks p n) 0 bf' nsae [[]] n'.
+  exists bf' n', gres o (jwalk_list (jwalk o F) (flat_map c04_doc_nodes p)) st (c04_file_chunks p n) 0 bf' nsae [[]] n'.
 Proof.
   induction p as [|t r IH]; intros n st bf Hall Hs.
   - exists bf, n. cbn [flat_map jwalk_list c04_file_chunks c04_chain]. apply gres_ret; exact Hs.
@@ -291,9 +297,11 @@ Proof.
     destruct (bgen (ct_mode t) t_output c04_body_scope n (ct_body t)) as [jb n1] eqn:Eg.
     pose proof (gen_template t [] (S F1) st1 jb n1 bf [[]] n ltac:(lia) Hwf ltac:(intros x Hx; discriminate Hx) H1 Eg) as G2. rewrite Hao in G2.
     change (NTemplate 0 (ct_name t) (NList 0 (bnodes (ct_body t))) (ct_ae t) false) with (t_node (c04_template t)).
-    destruct G2 as (st2 & E2 & O2 & H2).
-    destruct (IH n1 st2 t_output (fun t' Ht' => Hall t' (or_intror Ht')) H2) as (bf' & n' & (st3 & E3 & O3 & H3)).
-    exists bf', n', st3. rewrite (jbind_ok _ _ _ _ _ E1), (jbind_ok _ _ _ _ _ E2). split; [exact E3|]. split; [|exact H3].
+    destruct G2 as (st2 & E2 & O2 & H2 & C2).
+    destruct (IH n1 st2 t_output (fun t' Ht' => Hall t' (or_intror Ht')) H2) as (bf' & n' & (st3 & E3 & O3 & H3 & C3)).
+    assert (C1 : j_called st1 = j_called st) by (subst st1; destruct st; reflexivity).
+    exists bf', n', st3. rewrite (jbind_ok _ _ _ _ _ E1), (jbind_ok _ _ _ _ _ E2). split; [exact E3|].
+    split; [|split; [exact H3|intro HF; rewrite (C3 HF), (C2 HF); exact C1]].
     cbn [snd]. unfold c04_jbody at 1. rewrite Eg. cbn [fst]. rewrite O3, O2, O1, rev_app_distr, app_assoc. reflexivity.
 Qed.
 End TemplateChunks.
@@ -313,7 +321,7 @@ Theorem gen_correct_partial_template cf o p cnt :
   /\ (* Gen: that function is what visitTemplate writes, from the counter cnt name *)
      (forall F st bf, (S (bdepth (ct_body t)) < F)%nat -> bwf [] (ct_body t) = true ->
         shape st 0 bf (ct_ns_ae t) [[]] (cnt name) -> c04_allopt (j_cur st) = ct_allopt t ->
-        gres (jwalk o F (t_node (c04_template t))) st
+        gres o (jwalk o F (t_node (c04_template t))) st
              (c04_tprint (template_header_line o name) (ct_allopt t) (c04_jbody t (cnt name))) 0 t_output (ct_ns_ae t) [[]]
              (snd (bgen (ct_mode t) t_output c04_body_scope (cnt name) (ct_body t)))).
 Proof.
